@@ -16,6 +16,8 @@
 //   filtered    : filtration values monotone (non-decreasing or non-increasing) along the sequence; cell keys distinct
 // --seed-ops <list|all>: every history starts with that fixed operation list ("all" = insert every cell of the universe
 //   in numbering order, "allrev" = by dimension and decreasing number, "dim0" / "dim01" = the cells of dimension 0 / <= 1); the enumeration (depth counted after the seed) is exhaustive from there.
+// --min-op-dim d: after the seed, only cells of dimension >= d are inserted / removed (apply_identity stays): e.g. every
+//   sequence of edge insertions / removals on a fixed vertex set.
 // Case encoding (replayable): "u=<universe>;ops=<c1,c2,...>;fe=<plain|storage|stream>[;dimmax=<d>;vals=<v1,...>]"
 //   op code 0 = apply_identity, 1+c = insert cell c, 1+N+c = remove cell c (N = number of cells of the universe).
 #include "harness.hpp"
@@ -127,6 +129,12 @@ static Universe make_universe(const std::string& n) {
     if (n == "cycle6") reg(1, M({0, 5}));
     if (n == "star6") for (int i = 1; i < 6; ++i) reg(1, M({0, i}));
     if (n == "graph6w") { reg(1, M({2, 5})); reg(1, M({0, 5})); reg(1, M({2, 3})); }
+  } else if (n == "k4") {  // complete graph on 4 vertices, no 2-cells: 4=01 5=02 6=03 7=12 8=13 9=23
+    for (int i = 0; i < 4; ++i) reg(0, 0);
+    for (int i = 0; i < 4; ++i) for (int j = i + 1; j < 4; ++j) reg(1, M({i, j}));
+  } else if (n == "k5") {  // complete graph on 5 vertices, no 2-cells
+    for (int i = 0; i < 5; ++i) reg(0, 0);
+    for (int i = 0; i < 5; ++i) for (int j = i + 1; j < 5; ++j) reg(1, M({i, j}));
   } else {
     fprintf(stderr, "unknown universe %s\n", n.c_str());
     exit(2);
@@ -623,6 +631,7 @@ struct Enum {
   int full_values_depth = 0;   // every monotone value sequence over {0,1,2} for histories up to this depth
   int filtered_depth = 0;      // the fixed value sequences for histories up to this depth
   std::vector<int> seed;       // fixed operation prefix of every history (reaches complexes a search from empty cannot)
+  int min_op_dim = 0;          // after the seed only cells of at least this dimension are inserted / removed
   bool oracle_only = false;     // timing aid: enumerate and run the oracle, skip the implementation
   long long counter = 0;
   std::vector<int> h;
@@ -711,6 +720,7 @@ struct Enum {
     int nops = 2 * U.N() + 1;
     for (int op = 0; op < nops; ++op) {
       if (!chk.model.enabled(K, op)) continue;
+      if (op != 0 && U.c[(op - 1) % U.N()].dim < min_op_dim) continue;
       uint64_t K2 = chk.model.apply(K, op);
       h.push_back(op);
       z.push(K2);
@@ -784,6 +794,7 @@ int main(int argc, char** argv) {
   e.full_values_depth = (int)a.geti("valdepth", 0);
   e.filtered_depth = (int)a.geti("fedepth", 0);
   e.oracle_only = a.geti("oracle-only", 0) != 0;
+  e.min_op_dim = (int)a.geti("min-op-dim", 0);
   {
     std::string sd = a.get("seed-ops", "");
     if (sd == "all") for (int c = 0; c < U.N(); ++c) e.seed.push_back(1 + c);  // every cell of the universe, by number
